@@ -355,3 +355,6 @@ class GHE(BaseGHE):
         )
 
         self.bhe.b.H = returned_height
+        # the solver's last evaluation need not be at the returned height (e.g. when it is clamped
+        # at a bound): leave the object with the temperatures of the height it reports
+        self.simulate(method=method)
